@@ -4,7 +4,7 @@ HOOKS = {
     "guard": "verif",
     "enable": "go build -tags verif (the harness module in /verif/harness replaces the library by /repo/go and is always built with -tags verif)",
     "baseline_off_cmd": BASE_OFF,
-    "source_commits": [],
+    "source_commits": ["98cebac"],
     "add_only": True,
 }
 NOTES = ("Every check: ./check <id> [--tier quick|thorough] [--replay FILE]; honours VERIF_SEED and VERIF_TIER. "
@@ -20,6 +20,17 @@ CHECKS = {
         "design_ref": "DESIGN.md section 7, C18",
         "note": CODEC_NOTE + "Registry = versions registered by importing go/v1 and go/v2.",
         "technique": "Lean 4 proof (decide +kernel over complete byte tables, lifted) + exhaustive model/code differential run + regenerated expressions",
+    },
+    "C09": {
+        "text": "Theorems for all inputs: parser soundness (anything accepted is the canonical encoding of the pairs returned: truncated blocks, "
+                "non-canonical two-byte lengths and dangling keys are rejected), completeness, totality/termination, length round trip for every "
+                "representable length, budget, whole-pairs (longest fitting prefix of the valid entries in visiting order), determinism (sorted "
+                "visiting order makes the block a function of the map), Set guards, and the map round trip with an arbitrary lower-casing function. "
+                "The model uses the length-prefix expressions regenerated from the Go source; model and code are compared on all 2^16 two-byte "
+                "prefixes, (thorough) every string length 0..32768, and tens of thousands of generated/malformed blocks and maps.",
+        "design_ref": "DESIGN.md section 7, C09",
+        "note": CODEC_NOTE + "strings.ToLower is an arbitrary function in the theorems (real one applied by the comparator); Go map and sort.Strings semantics modelled.",
+        "technique": "Lean 4 proof (well-founded parser, loop invariants, mergeSort uniqueness) + model/code differential run (partly exhaustive) + regenerated expressions",
     },
 }
 NOT_CLAIMED = {}
